@@ -687,6 +687,11 @@ fn transform_fn(
         msg_format: rule_list.iter().any(|r| r == "E5"),
         drop_tracing: rule_list.iter().any(|r| r == "E5"),
     };
+    if plan["assumed"].as_bool().unwrap_or(false) {
+        // assumed contract: the signature is the repository's, the body is dropped (reported as an assumption)
+        block.stmts.clear();
+        block.stmts.push(Stmt::Expr(parse_quote!(unimplemented!()), None));
+    }
     let mut applied = Applied::default();
     RuleVisitor { rules: &rules, applied: &mut applied }.visit_block_mut(block);
     if !subst.is_empty() {
